@@ -29,11 +29,13 @@ struct Job {
 }
 
 fn jobs(seed: u64) -> Vec<Job> {
+    // four threads: two high-rate and two low-rate jobs, so that both decoders (and both encoders) always run
+    // on two threads at once; every thread finishes the decode round its neighbour started
     let mut s = seed ^ 0xA5A5_5A5A;
-    (0..3)
-        .map(|_| {
+    (0..4)
+        .map(|t| {
             let v = splitmix(&mut s);
-            Job { high: v & 1 == 0, k: 1 + (v >> 1) as usize % 3, r: 1 + (v >> 8) as usize % 3, data: splitmix(&mut s) }
+            Job { high: t % 2 == 0, k: 1 + (v >> 1) as usize % 3, r: 1 + (v >> 8) as usize % 3, data: splitmix(&mut s) }
         })
         .collect()
 }
